@@ -305,6 +305,42 @@ static void op_gssvx(hist_t *h, const char *op)
     hx_free(pc); hx_free(pr); hx_free(o.etree); hx_free(o.colcnt_h); hx_free(o.part_super_h); hx_free(bval); hx_free(xval); hx_free(B.Store); hx_free(X.Store); hx_free(R); hx_free(C); hx_free(fe); hx_free(be); hx_free(a0);
 }
 
+/* workspace-size query (lwork = -1) through the computational routine or through the expert driver: no factorization is
+   performed, a positive estimate comes back, nothing is handed to the caller (so nothing may stay allocated) */
+static void op_query(hist_t *h, const char *op)
+{
+    const slu_vt *vt = h->vt; int n = h->n; hx_matrix *M = h->M; int P = (int)opt_int(op, "P", 1); char vb[16]; const char *via = opt_str(op, "via", "gstrf", vb, sizeof vb);
+    int_t *pc = hx_malloc(sizeof(int_t) * (n + 1)), *pr = hx_malloc(sizeof(int_t) * (n + 1)); memcpy(pc, h->perm_c0, sizeof(int_t) * n);
+    int_t info = -777; SuperMatrix L, U; memset(&L, 0, sizeof L); memset(&U, 0, sizeof U);
+    if (!strcmp(via, "gstrf")) {
+        if (M->stype) { hx_free(pc); hx_free(pr); return; }
+        Gstat_t gs; superlumt_options_t o; SuperMatrix AC;
+        g_track = 1; g_phase = "query";
+        StatAlloc(n, P, g_ienv[1], g_ienv[2], &gs); StatInit(n, P, &gs);
+        vt->gstrf_init(P, DOFACT, NOTRANS, NO, g_ienv[1], g_ienv[2], 1.0, NO, 0.0, pc, pr, NULL, -1, &M->A, &AC, &o, &gs);
+        vt->gstrf(&o, &AC, pr, &L, &U, &gs, &info);
+        vt->finalize(&o, &AC); StatFree(&gs);
+        g_track = 0;
+        if (info <= n) step_fail(h, op, "C14:query_no_estimate", "p?gstrf with lwork=-1 returned info=%d (n=%d): no positive size estimate", (int)info, n);
+    } else {
+        superlumt_options_t o; memset(&o, 0, sizeof o);
+        o.nprocs = P; o.fact = DOFACT; o.trans = NOTRANS; o.refact = NO; o.panel_size = g_ienv[1]; o.relax = g_ienv[2]; o.diag_pivot_thresh = 1.0; o.usepr = NO; o.SymmetricMode = NO; o.PrintStat = NO;
+        o.perm_c = pc; o.perm_r = pr; o.work = NULL; o.lwork = -1;
+        o.etree = hx_malloc(sizeof(int_t) * (n + 1)); o.colcnt_h = hx_malloc(sizeof(int_t) * (n + 1)); o.part_super_h = hx_malloc(sizeof(int_t) * (n + 1));
+        SuperMatrix B, X; void *bval, *xval; make_dense_B(vt, n, 1, n, &bval, &B, 0); make_dense_B(vt, n, 1, n, &xval, &X, 0);
+        void *R = hx_malloc(vt->rsize * (n + 1)), *C = hx_malloc(vt->rsize * (n + 1)), *fe = hx_malloc(vt->rsize * 2), *be = hx_malloc(vt->rsize * 2);
+        void *a0 = hx_malloc(vt->esize * (M->nnz + 1)); memcpy(a0, M->val, vt->esize * M->nnz);
+        equed_t eq = NOEQUIL; double rpg = 0, rc = 0; superlu_memusage_t mu; memset(&mu, 0, sizeof mu);
+        g_phase = "query";
+        LIB(vt->gssvx(P, &o, &M->A, pc, pr, &eq, R, C, &L, &U, &B, &X, &rpg, &rc, fe, be, &mu, &info));
+        if (!(mu.total_needed > 0)) step_fail(h, op, "C14:query_no_estimate", "p?gssvx with lwork=-1 returned total_needed=%g (info=%d)", (double)mu.total_needed, (int)info);
+        if (memcmp(a0, M->val, vt->esize * M->nnz)) step_fail(h, op, "C14:query_changed_A", "the workspace query modified the values of A");
+        hx_free(o.etree); hx_free(o.colcnt_h); hx_free(o.part_super_h); hx_free(bval); hx_free(xval); hx_free(B.Store); hx_free(X.Store); hx_free(R); hx_free(C); hx_free(fe); hx_free(be); hx_free(a0);
+    }
+    feat_add("queries", 1);
+    hx_free(pc); hx_free(pr);
+}
+
 static void hist_init(hist_t *h)
 {
     memset(h, 0, sizeof *h);
@@ -328,6 +364,7 @@ static void run_history(hist_t *h, int rep)
         else if (!strncmp(op, "OTHER", 5)) op_other(h, op);
         else if (!strncmp(op, "GSSVX", 5)) op_gssvx(h, op);
         else if (!strncmp(op, "GSSV", 4)) op_gssv(h, op);
+        else if (!strncmp(op, "QUERY", 5)) op_query(h, op);
         else if (!strncmp(op, "TUNE", 4)) {
             /* the caller changes the blocking parameters between two first-time factorizations (never while factors are live:
                a refactorization reuses the partition computed under the old parameters) */
